@@ -132,6 +132,16 @@ func (w *world) d15(o *c.Out) {
 		if variant == "cross" {
 			azInURL = db.authz
 		}
+		var ds *devOrder
+		if variant == "sibling" {
+			// another authorization of account A itself (a second order, another device): before e055659 the
+			// key attested for 12345 was written there and could become the key of that other order
+			if ds, err = w.deviceOrder(a, 24680); err != nil {
+				o.Case(line, "setup-failed:"+err.Error()+"\tuntouched")
+				return
+			}
+			azInURL = ds.authz
+		}
 		rec := e.Post(a, env.Path("p0", "challenge", azInURL, da.ch), pl)
 		zb, err1 := e.RealDB.GetAuthorization(ctx, db.authz)
 		za, err2 := e.RealDB.GetAuthorization(ctx, da.authz)
@@ -143,6 +153,14 @@ func (w *world) d15(o *c.Out) {
 		impl := "untouched"
 		if zb.Fingerprint != "" {
 			impl = "authorization-of-other-account-modified"
+		}
+		if ds != nil {
+			if zs, err := e.RealDB.GetAuthorization(ctx, ds.authz); err != nil {
+				o.Case(line, "observe-failed\tuntouched")
+				return
+			} else if zs.Fingerprint != "" {
+				impl = "authorization-of-another-order-modified"
+			}
 		}
 		impl += fmt.Sprintf(" resp=%s own-authz-fingerprint=%s challenge=%s", env.Class(rec), c.B(za.Fingerprint != ""), cha.Status)
 		exp := "untouched"
@@ -156,4 +174,5 @@ func (w *world) d15(o *c.Out) {
 	}
 	run("own")
 	run("cross")
+	run("sibling")
 }
